@@ -36,6 +36,11 @@ def cases(tier):
     for shp in shapes:
         for mode in ("none", "int", "list2"):
             out.append({"name": "vol_%s_%s" % ("x".join(map(str, shp)), mode), "shape": shp, "mode": mode, "what": "vol"})
+    # label arithmetic: unsigned 0/1 masks without selection, and labels / requested indices over the whole dtype range and beyond
+    for dt in (("uint8",) if tier == "quick" else ("uint8", "uint16", "uint64")):
+        out.append({"name": "vol_3_none_%s" % dt, "shape": (3,), "mode": "none", "what": "vol", "dtype": dt})
+        for mode in ("int", "list2"):
+            out.append({"name": "vol_3_%s_big_%s" % (mode, dt), "shape": (3,), "mode": mode, "what": "vol", "dtype": dt, "big": True})
     for shp in ([(2, 2)] if tier == "quick" else [(2, 3), (2, 2, 2)]):
         out.append({"name": "cldice_%s" % "x".join(map(str, shp)), "shape": shp, "mode": "none", "what": "cl"})
     return out
@@ -54,7 +59,19 @@ def run_case(case):
     for s in shape:
         n *= s
     base = []
-    if mode == "none":
+    big = case.get("big", False)
+    if mode == "none" and case.get("dtype"):
+        # 0/1 masks stored in an unsigned integer dtype
+        dt = case["dtype"]
+        rv = [z3.Int("r%d" % i) for i in range(n)]
+        pv = [z3.Int("p%d" % i) for i in range(n)]
+        for v in rv + pv:
+            declare_bounds(v, 0, 1)
+            base.append(z3.And(v >= 0, v <= 1))
+        X, Y = [v == 1 for v in rv], [v == 1 for v in pv]
+        ridx = pidx = None
+        idx_vars = []
+    elif mode == "none":
         rv = [z3.Bool("r%d" % i) for i in range(n)]
         pv = [z3.Bool("p%d" % i) for i in range(n)]
         X, Y = rv, pv
@@ -64,21 +81,23 @@ def run_case(case):
     else:
         rv = [z3.Int("r%d" % i) for i in range(n)]
         pv = [z3.Int("p%d" % i) for i in range(n)]
+        dt = case.get("dtype", "uint8")
+        vmax = KMAX if not big else 2 ** (8 * int(__import__("numpy").dtype(dt).itemsize)) - 1
+        imax = KMAX + 1 if not big else max(2 ** 17, vmax)
         for v in rv + pv:
-            declare_bounds(v, 0, KMAX)
-            base.append(z3.And(v >= 0, v <= KMAX))
-        dt = "uint8"
+            declare_bounds(v, 0, vmax)
+            base.append(z3.And(v >= 0, v <= vmax))
         ri = z3.Int("ridx")
-        declare_bounds(ri, 0, KMAX + 1)
-        base.append(z3.And(ri >= 0, ri <= KMAX + 1))
+        declare_bounds(ri, 0, imax)
+        base.append(z3.And(ri >= 0, ri <= imax))
         ridx = SNum(ri)
         if mode == "int":
             pi = [z3.Int("pidx")]
         else:
             pi = [z3.Int("pidx0"), z3.Int("pidx1")]
         for v in pi:
-            declare_bounds(v, 0, KMAX + 1)
-            base.append(z3.And(v >= 0, v <= KMAX + 1))
+            declare_bounds(v, 0, imax)
+            base.append(z3.And(v >= 0, v <= imax))
         pidx = SNum(pi[0]) if mode == "int" else [SNum(v) for v in pi]
         X = [v == ri for v in rv]
         Y = [z3.Or([v == q for q in pi]) for v in pv]
@@ -97,12 +116,15 @@ def run_case(case):
     h = H(PROP, case["name"], decode, replay_kind="metric", max_witnesses=60)
 
     def val(x):
+        """metric result -> z3 real term (nan/inf stay Python floats)"""
         if isinstance(x, SNum):
-            c = x.concrete()
-            return c if c is not None else x.t
-        if isinstance(x, float) and x == x and x not in (float("inf"), float("-inf")):
-            return Fraction(x)
-        return x
+            return z3.simplify(z3.ToReal(x.t) if x.t.sort() == z3.IntSort() else x.t)
+        if isinstance(x, float) and (x != x or x in (float("inf"), float("-inf"))):
+            return x
+        return z3.RealVal(Fraction(x))
+
+    def fin(x):
+        return not isinstance(x, float)
 
     def call(metric, swap=False):
         ref = SArr(list(rv), dt, shape).protect("caller reference")
@@ -131,6 +153,7 @@ def run_case(case):
         ok_d, d = guarded("dice", Metric.DSC, A + B > 0)
         ok_i, i = guarded("iou", Metric.IOU, U > 0)
         ok_r, r = guarded("rvd", Metric.RVD, A > 0)
+        ok_d, ok_i, ok_r = ok_d and fin(d), ok_i and fin(i), ok_r and fin(r)
         if ok_d:
             exp["dsc"] = d
             h.ok("dice_definition", z3.Implies(A + B > 0, d * z3.ToReal(A + B) == z3.ToReal(2 * I)))
@@ -151,12 +174,13 @@ def run_case(case):
         if mode in ("none", "int"):
             ok_ds, ds = guarded("dice", Metric.DSC, A + B > 0, swap=True)
             ok_is, is_ = guarded("iou", Metric.IOU, U > 0, swap=True)
+            ok_ds, ok_is = ok_ds and fin(ds), ok_is and fin(is_)
             if ok_d and ok_ds:
                 h.ok("dice_symmetric", z3.Implies(A + B > 0, d == ds))
             if ok_i and ok_is:
                 h.ok("iou_symmetric", z3.Implies(U > 0, i == is_))
-        if ok_i and isinstance(i, Fraction) and 0 < i < 1:
-            h.note_nontrivial((str(i), str(d), str(r) if ok_r else None))
+        if ok_i and z3.is_rational_value(i) and z3.is_true(z3.simplify(z3.And(i > 0, i < 1))):
+            h.note_nontrivial((str(i), str(d) if ok_d else None, str(r) if ok_r else None))
         h.witness(expect=exp)
 
     def body_cl():
@@ -189,7 +213,7 @@ def run_case(case):
         cov_p = _count([z3.And(cz(c), r) for c, r in zip(sp, rv)])    # prediction skeleton covered by the reference
         # harmonic mean of a = cov_r/Sr and b = cov_p/Sp wherever defined (both skeletons non-empty, a+b > 0)
         defined = z3.And(Sr > 0, Sp > 0, cov_r * Sp + cov_p * Sr > 0)
-        if isinstance(v, float):
+        if not fin(v):
             h.ok("cldice_definition", z3.Not(defined), detail="value %r where the harmonic mean is defined" % v)
         else:
             # v * (a + b) == 2ab  <=>  v * (cov_r*Sp + cov_p*Sr) == 2*cov_r*cov_p   (multiply by Sr*Sp > 0)
@@ -268,7 +292,7 @@ def real_metric(case, mode, expect):
             if expect and k_tw in expect and isinstance(obs.get(k_re), float):
                 if not close(expect[k_tw], obs[k_re], 1e-12):
                     ok, why = False, "%s twin %s real %s" % (k_tw, expect[k_tw], obs[k_re])
-        return {"match": ok and bad is None, "why": why or bad, "observed": obs}
+        return {"match": ok, "why": why, "violates": bad is not None, "reason": bad, "observed": obs}
     return {"violates": bad is not None, "reason": bad, "observed": obs}
 
 
